@@ -60,6 +60,17 @@ def classify(entry, kind, events):
         else:
             fam = "sorted"
         role["family"] = fam
+    routes = {0: "own_lock", 1: "own_try_lock", 2: "own_scoped_lock", 3: "own_scoped_try_lock", 4: "own_read", 5: "own_scoped_read",
+              6: "coll_lock", 7: "coll_try_lock", 8: "coll_scoped_lock", 9: "coll_scoped_try_lock", 10: "coll_read", 11: "coll_scoped_read"}
+    last_route = None
+    for (c, a, b) in events:
+        if c == 106 and 9100 <= a < 9199:
+            last_route = routes.get(a - 9100)
+        elif c == 106 and a == 9199:
+            last_route = "final"
+        elif c == 999:
+            break
+    role["route"] = last_route
     phase = "acquire"
     nfault = 0
     role["release_fault_during_recovery"] = False
